@@ -190,6 +190,33 @@ pub fn eval_whole_file(text: &str) -> Outcome {
     })
 }
 
+/// the unbound variable / non-procedure is an identifier that a user macro's template introduces: the error is located
+/// in the form that uses the macro
+pub fn template_identifier_case(ch: &mut Chooser) -> Report {
+    let mut forms = prelude();
+    let (def, use_): (&str, Expr) = match ch.below(4) {
+        0 => ("(define-syntax call-helper (syntax-rules () ((call-helper x) (undefined-helper x))))", app("call-helper", vec![Expr::Int(1)])),
+        1 => ("(define-syntax read-global (syntax-rules () ((read-global) (list 1 undefined-global))))", app("read-global", vec![])),
+        2 => ("(define-syntax apply-five (syntax-rules () ((apply-five x) (five x))))", app("apply-five", vec![Expr::Int(1)])),
+        _ => ("(define-syntax call-helper2 (syntax-rules () ((call-helper2 x y) (+ x (undefined-helper y)))))", app("call-helper2", vec![Expr::Int(1), Expr::Int(2)])),
+    };
+    forms.push(Form::Raw(def.to_string()));
+    // the use sits at the start of the form, or a little inside it
+    let f = match ch.below(3) {
+        0 => use_,
+        1 => app("list", vec![use_]),
+        _ => Expr::If(Box::new(Expr::Bool(true)), Box::new(use_), None),
+    };
+    let fault_index = forms.len();
+    forms.push(Form::Expr(f));
+    forms.push(Form::Expr(Expr::Quote(Datum::Sym("after".into()))));
+    // judged on the extent of the failing form only (kind wrong-type: no offending token of the user's own text)
+    let mut rep = judge_program(ch, forms, fault_index, "wrong-type", "direct", false);
+    rep.label("identifier-introduced-by-a-template");
+    rep.nontrivial = true;
+    rep
+}
+
 /// the faulting form is the very first form the interpreter evaluates (nothing, or only comments, before it)
 pub fn first_form_case(ch: &mut Chooser) -> Report {
     let marked = |e: Expr| Expr::Marked(Box::new(e));
@@ -236,7 +263,7 @@ fn judge_program(ch: &mut Chooser, forms: Vec<Form>, fault_index: usize, kind: &
     // the forms before the injected fault must succeed (the first error of the text is then the injected one)
     {
         let mut m = crate::refeval::Machine::new(crate::refeval::ORDERS[0]);
-        if forms[..fault_index].iter().any(|f| m.eval_form(f).is_err()) {
+        if forms[..fault_index].iter().any(|f| !matches!(f, Form::Raw(t) if t.starts_with("(define-syntax")) && m.eval_form(f).is_err()) {
             rep.skipped = Some("a-form-before-the-fault-fails-in-the-reference-evaluator".into());
             return rep;
         }
@@ -401,6 +428,7 @@ pub fn run(ctx: &Ctx) {
     let per = ctx.tier.pick(100, 400);
     ctx.random("same-form-written-twice", ctx.tier.pick(600, 4_000), 300, repeated_case);
     ctx.random("first-form", ctx.tier.pick(400, 3_000), 200, first_form_case);
+    ctx.random("template-identifier", ctx.tier.pick(400, 3_000), 200, template_identifier_case);
     for kind in KINDS.iter() {
         for context in CONTEXTS_C08.iter() {
             for derived in [false, true] {
